@@ -63,7 +63,7 @@ IsoFileLegality(s, lvl) ==
        \/ (lvl = 1 /\ (Len(p.name) > 8 \/ Len(p.ext) > 3))
        \/ (lvl < 4 /\ ~(AllD1(p.name) /\ AllD1(p.ext)))
        \/ Len(s) > 255
-       \/ Has(s, SLASH) \/ Has(s, 0)
+       \/ Has(s, SLASH) \/ Has(s, 0) \/ s = <<1>>    \* (00) and (01) are "." and ".." (ECMA-119 6.8.2.2)
     THEN "illegal"
     ELSE IF Len(s) > MaxIdentLen - 40 THEN "silent"   \* may not fit next to extension records
     ELSE "legal"
@@ -74,7 +74,7 @@ IsoDirLegality(s, lvl) ==
        \/ (lvl \in {2, 3} /\ Len(s) > 207)
        \/ (lvl < 4 /\ ~AllD1(s))
        \/ Len(s) > 255
-       \/ Has(s, SLASH) \/ Has(s, 0)
+       \/ Has(s, SLASH) \/ Has(s, 0) \/ s = <<1>>
     THEN "illegal"
     ELSE IF Len(s) > MaxIdentLen - 40 THEN "silent"
     ELSE "legal"
